@@ -217,6 +217,8 @@ func pipeRun(args []string) error {
 				e["status"], e["same"] = p.Status, bytes.Equal(p.Content, input)
 				e["injected"] = c.FailAt > 0 && len(sink.callSizes()) >= c.FailAt
 				e["nblocks"] = len(p.Blocks)
+				e["sinkSha"] = shaID(b)
+				e["sinkLen"] = len(b)
 			} else {
 				// the source frame is written without hooks interfering: sequential Writer
 				currentLog.Store(nil)
